@@ -36,6 +36,7 @@ def tolerated(case, i, impl, model):
 
 def gen_case(rng, per):
     ops = [["load_predefined"]] + _money.setup(CODES)
+    late = []
     price_units = {}      # symbol -> (class, currency, x-unit)
     for cls, xunits in rng.sample(sorted(PER.items()), rng.randint(1, 3)):
         pname = "PricePer" + cls
@@ -43,8 +44,11 @@ def gen_case(rng, per):
         for cur in rng.sample(CODES, rng.randint(2, 4)):
             for xu in rng.sample(xunits, rng.randint(1, 2)):
                 sym = f"{cur}/{xu}"
-                ops.append(["derive_unit", pname, f"{cur},{xu}", "-"])
                 price_units[sym] = (pname, cur, xu)
+                if rng.random() < .3:
+                    late.append(["derive_unit", pname, f"{cur},{xu}", "-"])   # declared later
+                else:
+                    ops.append(["derive_unit", pname, f"{cur},{xu}", "-"])
     rates = {}
     for i in range(6):
         a, b = rng.sample(CODES, 2)
@@ -53,7 +57,16 @@ def gen_case(rng, per):
         ops.append(["rate_new", name, a, rng.choice(["int:1", "int:100"]), b, _money.ta_token(rng, v), _money.MODE])
         rates[name] = (a, b)
     nsetup = len(ops)
-    for _ in range(per):
+    declared_now = {o[2].replace(",", "/") for o in ops if o[0] == "derive_unit"}
+    for step in range(per):
+        if late and step == per // 2:
+            # the missing price units are declared now; what was rejected for
+            # want of them before is asked again
+            asked = [list(o) for o in ops[nsetup:] if o[0] == "money_rate"]
+            ops.extend(late)
+            declared_now |= {o[2].replace(",", "/") for o in late}
+            late = []
+            ops.extend(asked[-12:])
         mode = rng.choice(MODES)
         rn = rng.choice(list(rates))
         r = rng.random()
@@ -61,8 +74,8 @@ def gen_case(rng, per):
         if r < .45:
             cur = rng.choice([rates[rn][0], rates[rn][1], rng.choice(CODES)])
             ops.append(["money_rate", rng.choice(["mul", "rmul", "div", "rdiv"]), f"{amt}@{cur}", rn, mode])
-        elif r < .92 and price_units:
-            sym = rng.choice(list(price_units))
+        elif r < .92 and price_units and declared_now:
+            sym = rng.choice(sorted(declared_now & set(price_units)) or sorted(declared_now))
             ops.append(["money_rate", rng.choice(["mul", "rmul", "div"]), f"{amt}@{sym}", rn, mode])
         else:
             ops.append(["money_rate", rng.choice(["mul", "div"]), f"{amt}@{rng.choice(['kg', 'm', 's'])}", rn, mode])
@@ -86,10 +99,14 @@ def oracle(case, impl):
     rates = {}
     declared = {}
     for i, (o, out) in enumerate(zip(case["ops"], impl)):
-        if i < case["nsetup"]:
-            if o[0] == "derive_unit" and out.startswith("ok "):
+        if o[0] == "derive_unit":
+            if out.startswith("ok "):
                 declared[out[3:]] = case["price_units"].get(out[3:])
-            elif o[0] == "rate_new":
+            else:
+                fails.append({"site": "setup", "msg": f"{o} -> {out}"})
+            continue
+        if i < case["nsetup"]:
+            if o[0] == "rate_new":
                 got = _money.parse_rate_out(out)
                 if got:
                     rates[o[1]] = got
